@@ -14,11 +14,19 @@ class choice_point:
         "atom",
         "matches",
         "matches_cur",
+        "skip_built_depends",
         "solution_filters",
     )
 
-    def __init__(self, a, matches):
+    def __init__(self, a, matches, skip_built_depends=False):
+        """
+        :param skip_built_depends: leave the build-time classes of built
+            packages alone when pruning (the resolver never resolves them, so
+            a hopeless build dependency is no reason to give up an installed
+            package)
+        """
         self.atom = a
+        self.skip_built_depends = skip_built_depends
         self.matches = iter(matches)
         self.matches_cur = None
         self.solution_filters = set()
@@ -70,14 +78,11 @@ class choice_point:
         self.matches_cur = self.matches = None
         return False
 
-    def reduce_atoms(self, atom, skip_built_depends=False):
+    def reduce_atoms(self, atom):
         """Alter choice point atom set.
 
         :param atom: set of package atoms
         :type atom: set of :obj:`pkgcore.ebuild.atom.atom`
-        :param skip_built_depends: leave the build-time classes of built
-            packages alone (the caller never resolves them, so a hopeless
-            build dependency is no reason to give up an installed package)
         :return: True if no more pkgs remain or atoms were removed,
             False if no atoms were removed
         """
@@ -99,7 +104,7 @@ class choice_point:
                 return True
 
             depset_names = ("_bdeps", "_deps", "_rdeps", "_prdeps", "_ideps")
-            if skip_built_depends and getattr(self.matches_cur, "built", False):
+            if self.skip_built_depends and getattr(self.matches_cur, "built", False):
                 depset_names = depset_names[2:]
             for depset_name in depset_names:
                 depset = getattr(self, depset_name)
